@@ -195,19 +195,18 @@ func (broker *HandoverXBroker) isReadyToFinish(vp base.Voteproof) (isFinished bo
 		return false, nil
 	}
 
-	_ = broker.successcount.Get(func(uint64, bool) error {
+	_ = broker.successcount.Get(func(count uint64, _ bool) error {
 		if broker.readyEnd < 1 {
 			return nil
 		}
 
-		switch count, ok := broker.isReady(); {
-		case !ok:
-			return nil
-		default:
+		// NOTE do not call isReady() here; it read-locks successcount again
+		// and a Receive() waiting for the write lock in between blocks both.
+		if broker.checkIsReady(count) {
 			isFinished = count >= broker.readyEnd
-
-			return nil
 		}
+
+		return nil
 	})
 
 	return isFinished, nil
